@@ -154,6 +154,8 @@ def check_C01(tier):
     if tier == "thorough":
         r = vlib.model_check("MC_Chunk.tla", "MC_Chunk_quick.cfg", wd)
         out.add_s1(r, "MC_Chunk_quick (any legal sender)")
+        r = vlib.model_check("MC_Chunk.tla", "MC_Chunk_lib3.cfg", wd, workers=12, timeout=3000)
+        out.add_s1(r, "MC_Chunk_lib3 (library policy, THREE messages: format 3 after a delta established by the second message)")
     logs = chunk_logs(wd, "ser_fixed", tier) + chunk_logs(wd, "big", tier) + chunk_gen_logs(out, wd, tier)
     # the pure self-consistency oracle: no parsing; library output vs. the intended messages
     chunk_validate(out, logs, wd, False, False,
@@ -209,6 +211,9 @@ def check_C06(tier):
     wd = vlib.workdir("C06")
     r = vlib.model_check("MC_Chunk.tla", "MC_Chunk_quick.cfg", wd, need_actions=["SendData", "SendSetCS", "Cont"])
     out.add_s1(r, "MC_Chunk_quick (any legal sender x reference receiver)")
+    if tier == "thorough":
+        r = vlib.model_check("MC_Chunk.tla", "MC_Chunk_deep.cfg", wd, workers=12, timeout=3400)
+        out.add_s1(r, "MC_Chunk_deep (any legal sender, THREE messages: 4.0 M distinct states)")
     logs = chunk_logs(wd, "foreign", tier) + chunk_gen_logs(out, wd, tier, side="rx")
     chunk_validate(out, logs, wd, False, True, is_des, "c06")
     sample_events(out, logs[0][0], ("Chunk", "Feed"))
